@@ -2,8 +2,7 @@ package sim
 
 import (
 	"sort"
-	"sync/atomic"
-	"testing/synctest"
+		"testing/synctest"
 	"time"
 	"unsafe"
 )
@@ -16,6 +15,7 @@ type Task struct {
 	Origin string // site of the go statement (informational)
 
 	resume chan int
+	sched  *Sched
 	nspawn int // touched only by the task itself
 	Step   int // scheduler step at which the task was last resumed (task-local)
 
@@ -48,8 +48,6 @@ type Sched struct {
 	c *Ctx
 
 	parkCh chan parkEv
-	table  [tableSize]slot
-	free   atomic.Bool // teardown: hooks pass through
 	sync   int64       // address used for task -> scheduler happens-before
 
 	parked []*Task
@@ -69,6 +67,7 @@ type Sched struct {
 	OnIdle     func() // called on the root goroutine whenever nothing is runnable, before time advances
 	OnStep     func() // called on the root goroutine before every decision (everything is blocked)
 	StopWhen   func() bool
+	OnRelease  func(task, site string) // called on the root goroutine just before a task is resumed
 
 	// results
 	Trace     []StepRec
@@ -89,6 +88,8 @@ func NewSched(c *Ctx) *Sched {
 	s.Hash = 1469598103934665603
 	s.start = time.Now()
 	c.Sched = s
+	clearTable()
+	gFree.Store(false)
 	return s
 }
 
@@ -99,11 +100,11 @@ func (s *Sched) Now() time.Duration { return time.Since(s.start) }
 // (directly or inside instrumented sheens code) is a scheduling point.
 // Root context only.
 func (s *Sched) Go(name string, fn func(t *Task)) *Task {
-	t := &Task{Name: name, resume: make(chan int), harness: true}
+	t := &Task{Name: name, resume: make(chan int), harness: true, sched: s}
 	s.all = append(s.all, t)
 	s.live++
 	go func() {
-		s.register(goid(), t)
+		register(goid(), t)
 		s.park(t, "start", kBorn)
 		fn(t)
 		s.finish(t)
@@ -200,6 +201,9 @@ func (s *Sched) release(t *Task) {
 	s.mix(t.Name)
 	s.mix(t.site)
 	s.mixInt(uint64(at))
+	if s.OnRelease != nil {
+		s.OnRelease(t.Name, t.site)
+	}
 	t.resume <- s.step
 }
 
@@ -341,7 +345,7 @@ func (s *Sched) Drain(maxSteps int) {
 			s.Stuck = append(s.Stuck, t.Name)
 		}
 	}
-	s.free.Store(true)
+	gFree.Store(true)
 	for _, t := range s.parked {
 		t.parked = false
 		t.resume <- -1
